@@ -40,6 +40,7 @@ type Contract struct {
 	Decs     []*Clause
 	Prefers  []*Clause
 	Crash    []*Clause
+	Hints    []*Clause // instances of manual axioms: `hint#N axiomName(args...)`
 	Lets     map[string]*Let
 	LetOrder []string
 	Modifies []string
@@ -65,9 +66,10 @@ type GhostVar struct {
 }
 
 type Axiom struct {
-	Name string
-	E    *Expr
-	Src  string
+	Name   string
+	E      *Expr
+	Src    string
+	Manual bool // never added as a quantified formula: instantiated only through `hint` clauses
 }
 
 type Specs struct {
@@ -83,7 +85,15 @@ type Specs struct {
 	Lemmas    []*Lemma          // pure SMT lemmas over the vocabulary
 	Callers   []*CallersRule
 	Guards    []*GuardRule
+	ZeroGhosts []ZeroGhost
 	Imports   map[string]string // alias -> path (global across spec files)
+}
+
+// ZeroGhost: a freshly allocated value of Type has ghost map Ghost[ref] == Value (an expression)
+type ZeroGhost struct {
+	Type  string
+	Ghost string
+	Value *Expr
 }
 
 type GuardRule struct {
@@ -129,7 +139,7 @@ func newSpecs() *Specs {
 
 var clauseKW = map[string]bool{
 	"requires": true, "ensures": true, "modifies": true, "let": true, "invariant": true,
-	"decreases": true, "prefer": true, "crash_invariant": true, "assumed": true, "returns": true, "refines": true, "verify": true, "ghostmodifies": true, "opt": true, "loopmodifies": true,
+	"decreases": true, "prefer": true, "crash_invariant": true, "hint": true, "assumed": true, "returns": true, "refines": true, "verify": true, "ghostmodifies": true, "opt": true, "loopmodifies": true,
 }
 
 type rawLine struct {
@@ -290,7 +300,13 @@ func (sp *Specs) parseLines(lines []rawLine, pkgPath string) error {
 				return fmt.Errorf("%s: %v", where, err)
 			}
 			if kw == "axiom" {
-				sp.Axioms = append(sp.Axioms, &Axiom{m[2], e, src})
+				manual := false
+				for _, t := range strings.Split(m[1], ",") {
+					if strings.TrimSpace(t) == "manual" {
+						manual = true
+					}
+				}
+				sp.Axioms = append(sp.Axioms, &Axiom{m[2], e, src, manual})
 			} else {
 				var tags []string
 				for _, t := range strings.Split(m[1], ",") {
@@ -300,6 +316,17 @@ func (sp *Specs) parseLines(lines []rawLine, pkgPath string) error {
 				}
 				sp.Lemmas = append(sp.Lemmas, &Lemma{m[2], tags, e, src, b.head.file, b.head.line})
 			}
+		case "zeroghost":
+			// zeroghost pkg.Type ghostMap <expr>
+			f := strings.Fields(rest)
+			if len(f) < 3 {
+				return fmt.Errorf("%s: zeroghost pkg.Type ghostMap expr", where)
+			}
+			ve, err := parseExpr(strings.TrimSpace(strings.SplitN(rest, f[1], 2)[1]))
+			if err != nil {
+				return fmt.Errorf("%s: %v", where, err)
+			}
+			sp.ZeroGhosts = append(sp.ZeroGhosts, ZeroGhost{Type: sp.qualify(f[0], pkgPath), Ghost: f[1], Value: ve})
 		case "guarded":
 			// guarded[tags] pkg.Type.field by mutexField
 			m := regexp.MustCompile(`^guarded(?:\[([^\]]*)\])?\s+(\S+)\.(\w+)\s+by\s+(\w+)(?:\s+snapshot\s+(\w+)\s*,\s*(\w+))?$`).FindStringSubmatch(h)
@@ -615,7 +642,7 @@ func (sp *Specs) parseClause(c *Contract, it rawLine) error {
 		}
 		c.Lets[name] = &Let{name, e}
 		c.LetOrder = append(c.LetOrder, name)
-	case "requires", "ensures", "invariant", "decreases", "prefer", "crash_invariant":
+	case "requires", "ensures", "invariant", "decreases", "prefer", "crash_invariant", "hint":
 		e, err := parseExpr(body)
 		if err != nil {
 			return fmt.Errorf("%s: %v", where, err)
@@ -634,6 +661,8 @@ func (sp *Specs) parseClause(c *Contract, it rawLine) error {
 			c.Prefers = append(c.Prefers, cl)
 		case "crash_invariant":
 			c.Crash = append(c.Crash, cl)
+		case "hint":
+			c.Hints = append(c.Hints, cl)
 		}
 	default:
 		return fmt.Errorf("%s: unknown clause %q", where, kw)
